@@ -177,7 +177,7 @@ theorem M_step {s : State} {x : Ext} (hm : M s x) (hi : Inv s) (op : Op) : M (st
             exact marks_drop [id] _ (fun n => by simp) hm.rel
           · simp only [settledCallIds_append, settledCallIds_single_tx, append_nil]
             exact hm.marks n
-  | incFee id who t add =>
+  | incFee id who t add evm =>
     simp only [step, Ext.nextStd]
     unfold doIncFee
     repeat' split
